@@ -304,6 +304,10 @@ FilesBody(fs, all) ==           \* `all` (the records of all files in order) is 
                  Check("files.reference", \A k \in 1..Len(fs) : fs[k].ref = Ref(S.clock)),
                  Check("files.time", \A k \in 1..m : all[k].time = ClockTime(S.clock, hist[k].step)),
                  Check("files.records", \A k \in 1..m : RecOK(all[k], hist[k])),
+                 \* the configured attributes are in the file; "reference_time" in a units string is replaced by the reference time
+                 Check("files.attributes", \A k \in 1..Len(fs) :
+                          /\ (S.out.pvars => (fs[k].att.rt_ref = fs[k].ref /\ fs[k].att.rt_long /\ fs[k].att.src_long))
+                          /\ (S.out.stamp => (fs[k].att.stamp_ref = fs[k].ref /\ fs[k].att.stamp_min))),
                  Check("files.time_typed_instance", \A k \in 1..Len(all) : StampOK(all[k])),
                  Check("files.scalar_is_state", \A k \in 1..m : ScalStateOK(all[k], hist[k])),
                  Check("files.scalar_valid_at_record", \A k \in 1..m : ScalValidOK(all[k], hist[k])),
